@@ -4,7 +4,8 @@ Monitor: the real Cluster/Session/ResponseFuture/ResultSet run in the determinis
 wire-level node that serves a statement as a sequence of pages (0-3 rows each, empty pages included, unique row
 ids, opaque random paging states).  Every page-size sequence up to a bound is combined with every access pattern
 (iterate, list(), all(), manual fetch_next_page + current_rows, indexing / equality (list mode), one(), callback-driven paging
-with the handler attached before / after the first response, iteration
+with the handler attached before / after the first response, or while the callbacks of a page are being dispatched (from inside an
+earlier callback, or by the application thread between two callbacks), iteration
 interleaved with the read-only observers has_more_pages / one() / current_rows / paging_state) and the three
 stock row factories.  Oracle: the rows the caller saw are the concatenation of the pages; request i carries exactly
 the paging state returned with page i-1 (the first none) and the statement's fetch size; nothing is requested
@@ -20,7 +21,7 @@ PROPERTY = "C18"
 LEVEL = "exploration"
 ENGINE = "sim"
 TECHNIQUE = "runtime monitor in a deterministic world: scripted page server + sequential reference (concatenation of pages, paging-state chain) over an enumerated space of page-size sequences x access patterns"
-LEVEL_TEXT = ("Exhaustive over page-size sequences in {0..3}^(1..4) on quick ({0..3}^(1..7) on thorough) x 13 access patterns x {load-balanced, pinned to one of two hosts with host=}, row factory "
+LEVEL_TEXT = ("Exhaustive over page-size sequences in {0..3}^(1..4) on quick ({0..3}^(1..7) on thorough) x 17 access patterns x {load-balanced, pinned to one of two hosts with host=}, row factory "
               "tuple/dict/named rotating (all three for every sequence on thorough): rows seen == concatenation of pages, paging-state chain "
               "exact, no request after the final page, list materialisation == iteration, observers agree with the page model. "
               "Exhaustive within those bounds for the sequential access patterns listed; schedules (thread interleavings) are sampled.")
@@ -32,7 +33,8 @@ WORKERS = 14
 
 COLS = [('id', ('int',)), ('tag', ('text',))]
 PATTERNS = ['iterate', 'list', 'all', 'manual', 'index', 'eq', 'next-observed', 'one-then-iterate', 'manual-observed', 'bool-then-list',
-            'callback-paging-early', 'callback-paging-late', 'callback-paging-split']
+            'callback-paging-early', 'callback-paging-late', 'callback-paging-split',
+            'callback-paging-nested0', 'callback-paging-nested1', 'callback-paging-thread0', 'callback-paging-thread1']
 
 
 class PageServer(object):
@@ -73,7 +75,7 @@ class PageServer(object):
         return node.rows(cstate, req, COLS, [[rid, 'p%d' % k] for rid in pages[k]], 'ks', 't', **md)
 
 
-def callback_paging(pattern, session, statement, profile, world, sp, host=None):
+def callback_paging(pattern, session, statement, profile, world, sp, host=None, prims=None):
     """The documented callback-driven paging (PagedResultHandler): execute_async, a handler added with add_callbacks that collects the page and,
     while has_more_pages, calls start_fetching_next_page().  'early': the handler is attached before the first response can be processed;
     'late': after the first page's response was processed (the callback runs immediately inside add_callbacks); 'split': add_callback and
@@ -91,7 +93,42 @@ def callback_paging(pattern, session, statement, profile, world, sp, host=None):
 
     def handle_error(exc):
         errors.append(exc)
-    if pattern == 'callback-paging-early':
+    if pattern.startswith('callback-paging-nested') or pattern.startswith('callback-paging-thread'):
+        # An earlier callback ("first") is registered before the first response and pages through the result itself up to page j; while the
+        # callbacks of page j are being dispatched the real handler is attached - 'nested': by the first callback itself, from inside the
+        # dispatch; 'thread': by the application thread, which gets to run between two callbacks because the first callback waits for it.
+        j = min(int(pattern[-1]), len(sp['pages']) - 1)
+        calls = [0]
+        reached = [False]
+        gate = prims.Event() if prims is not None else None
+
+        def first(rows):
+            k = calls[0]
+            calls[0] += 1
+            if k < j:
+                pages_seen[0] += 1
+                seen.extend(rid(r) for r in (rows or []))
+                if box['f'].has_more_pages:
+                    box['f'].start_fetching_next_page()
+            elif k == j:
+                if 'nested' in pattern:
+                    box['f'].add_callbacks(handle_page, handle_error)
+                else:
+                    reached[0] = True
+                    gate.wait()
+
+        def first_error(exc):
+            errors.append(exc)
+            reached[0] = True
+        with world.inspect():
+            box['f'] = session.execute_async(statement, execution_profile=profile, host=host)
+            box['f'].add_callbacks(first, first_error)
+        if 'thread' in pattern:
+            world.block(lambda: reached[0], None, 'page-j-dispatch')      # the reactor is inside the dispatch loop of page j, in `first`
+            if not errors:
+                box['f'].add_callbacks(handle_page, handle_error)          # runs the handler for page j on this thread, between two callbacks
+            gate.set()
+    elif pattern == 'callback-paging-early':
         with world.inspect():                 # main keeps the baton: no response is processed before the handler is attached
             box['f'] = session.execute_async(statement, execution_profile=profile, host=host)
             box['f'].add_callbacks(handle_page, handle_error)
@@ -605,7 +642,7 @@ def run(ctx):
                     st = SimpleStatement(uid_query(uid), fetch_size=fetch)
                     try:
                         if pat.startswith('callback-paging'):
-                            seen, prob = callback_paging(pat, session, st, fname, env.world, sp, host=target)
+                            seen, prob = callback_paging(pat, session, st, fname, env.world, sp, host=target, prims=env.prims)
                         else:
                             rs = session.execute(st, execution_profile=fname, host=target)
                             seen, prob = access(pat, rs, sp, makers[fname])
